@@ -180,7 +180,7 @@ func GeneratedC20Case(seed uint64) C20Case {
 	} else {
 		for {
 			i := g.r.IntN(len(poolDocs))
-			if (wild && !poolDocSafe[i]) || poolDocs[i].NoEnum {
+			if (wild && !poolDocSafe[i]) || poolDocs[i].NoGen {
 				continue
 			}
 			doc = poolDocs[i].JSON
